@@ -235,7 +235,7 @@ def shards(tier, seed):
 PAIR_REQS = [[], [("Range", "bytes=1-6")], [("Range", "bytes=0-1,5-8")], [("Range", "bytes=-3")], [("Range", "bytes=-2,3-3,0-0")]]
 
 
-def run_pairs(r, iface):
+def run_pairs(r, iface, observer=None):
     """Two file requests in progress at once on one Files app: every interleaving of the two response iterables (WSGI) /
     all schedules with <=2 deviations of the two tasks' send events (ASGI); each response must equal the one served alone."""
     from ..core.explore import dfs
@@ -266,6 +266,8 @@ def run_pairs(r, iface):
             def check(results, how):
                 r.count("evaluations")
                 r.count("distinct_nontrivial")
+                if observer is not None:
+                    observer(w, [reqs[i], reqs[j]], results, how)
                 for k, res in zip((i, j), results):
                     got = (res.status, res.header_multiset(), res.body, type(res.exc).__name__ if res.exc else None)
                     exp = solo[k]
